@@ -347,6 +347,23 @@ def gen_world(rng, P: gen.Profile, name: str) -> World:
         scn.name = f"{name}-f{k}"
         scn.listeners_ctor = sorted({c.provider for c in scn.cbs if c.provider.startswith("L")})
         w.families.append(Family(scn=scn, cls_name="M" if same_names else f"M{k}"))
+    # an unrelated class whose *state ids* are spelled like callback attributes of another class's machine
+    if rng.random() < 0.25:
+        victim = w.families[0].scn
+        names = sorted({c.name for c in victim.cbs if c.provider == "machine" and c.style in ("conv", "name", "decorator")
+                        and c.name.isidentifier()})
+        thief = gen.gen_scenario(rng, P, f"{name}-thief")
+        own = {c.name for c in thief.cbs} | {eng.EVENTS[e] for t in thief.trans for e in t.events}
+        names = [n for n in names if n not in own]
+        if len(names) >= len(thief.states):
+            ids = rng.sample(names, len(thief.states))
+            for c in thief.cbs:
+                if c.style == "conv" and c.at[0] == "s":
+                    c.name = c.name.replace(f"_{thief.sid(c.at[1])}", f"_{ids[c.at[1]]}") if c.name.endswith(f"_s{c.at[1]}") else c.name
+            thief.sids = ids
+            thief.listeners_ctor = sorted({c.provider for c in thief.cbs if c.provider.startswith("L")})
+            w.families.append(Family(scn=thief, cls_name="M" if same_names else "Thief"))
+            nfam += 1
     # subclasses that add convention callbacks (never a transition out of an inherited state: D7)
     for k in range(nfam):
         if rng.random() < 0.45:
@@ -369,7 +386,7 @@ def gen_world(rng, P: gen.Profile, name: str) -> World:
             extra = []
             for g, nm, at in conv[:rng.randint(1, 4)]:
                 prov = rng.choice(["machine", "machine", "model"])
-                if (nm, prov) in have:
+                if (nm, prov) in have or nm in scn.sids:      # (an attribute named like a state is the state)
                     continue
                 coro = scn.is_async() and rng.random() < 0.4
                 sig = rng.choice(("ed", "named", "kwargs", "bare"))
